@@ -111,6 +111,15 @@ func loadVerifier(repo string, overlay map[string][]byte) (*Verifier, error) {
 
 func (v *Verifier) noteTrusted(s string) { v.trusted[s] = true }
 
+// heapPkgName: heap names carry the package *name* (typeKey), which differs from the last path
+// element for main packages.
+func (v *Verifier) heapPkgName(path string) string {
+	if p := v.pkgByPath(path); p != nil {
+		return p.Name()
+	}
+	return shortPkg(path)
+}
+
 func (v *Verifier) pkgByPath(path string) *types.Package {
 	if sp, ok := v.spkgs[path]; ok {
 		return sp.Pkg
@@ -458,7 +467,7 @@ func (v *Verifier) immutableHeap(heap string) bool {
 	}
 	rest := heap[2:]
 	for _, d := range v.db.Immutable {
-		pfx := shortPkg(d.PkgPath) + "." + d.TypeName + "."
+		pfx := v.heapPkgName(d.PkgPath) + "." + d.TypeName + "."
 		if strings.HasPrefix(rest, pfx) {
 			f := rest[len(pfx):]
 			for _, g := range d.Fields {
@@ -839,6 +848,13 @@ func (e *Exec) frameObligations(ret, entry *State, fc *FuncContract) {
 		switch {
 		case strings.HasPrefix(m, "H:") || strings.HasPrefix(m, "A:") || strings.HasPrefix(m, "G:") || strings.HasPrefix(m, "M:"):
 			allowedWhole[m] = true
+			if strings.HasPrefix(m, "M:") {
+				for _, k := range names {
+					if strings.HasPrefix(k, m+".") {
+						allowedWhole[k] = true
+					}
+				}
+			}
 		case strings.HasSuffix(m, "[*]"):
 			n, _ := parseSpec(strings.TrimSuffix(m, "[*]"))
 			ctx := &SpecCtx{e: e, st: entry, old: entry, vars: map[string]specVar{}, pkg: e.pkgTypes()}
